@@ -47,7 +47,7 @@ def gen(tier, rng):
     return cases
 
 
-def oracle(prog, steps, lines):
+def oracle(prog, steps, lines, glob=None):
     tasks, sus_parent, scope_parent = asyncgen.info(prog)
     fails = []
     dead = set()
@@ -82,6 +82,11 @@ def oracle(prog, steps, lines):
                 t = int(e.split(":")[1])
                 if t in cancelled:
                     fails.append({"step": k, "what": "task polled after its scope was disposed", "event": e})
+        if glob is not None and k < len(glob) and glob[k] is not None:
+            # use_is_loading_global(): some task registered under a boundary is unfinished (what the blocking render waits on)
+            eg = any(left[t] > 0 and t not in cancelled and sus is not None for t, (n, _, sus) in tasks.items())
+            if glob[k] != str(int(eg)):
+                fails.append({"step": k, "what": "use_is_loading_global() panics or is wrong", "reported": glob[k], "expected": int(eg)})
         for b, (outer, inner) in loads.items():
             chain, x = [], b
             while x is not None:
@@ -119,6 +124,7 @@ def main(argv):
         return chk.finish()
     # root reuse: the same tree built again in the root right after its disposal, before the executor dropped the cancelled tasks
     again = list(asyncgen.AGAIN)
+    glob = [list(g) for g in asyncgen.GLOB]
     afail = []
     for (prog, steps), lines, ag in zip(cases, impl, again):
         if not ag or ag[0] != lines[0]:
@@ -171,7 +177,7 @@ def main(argv):
     mism, orfail = [], list(afail) + list(ufail)
     for i, ((prog, steps), lines) in enumerate(zip(cases, impl)):
         key = asyncgen.sx_nodes(prog) + asyncgen.sx_steps(steps)
-        fails = oracle(prog, steps, lines)
+        fails = oracle(prog, steps, lines, glob[i] if i < len(glob) else None)
         # non-trivial: some task was pending under the disposed scope
         tasks, _, _ = asyncgen.info(prog)
         d = [s[1] for s in steps if s[0] == "dispose"]
